@@ -3,13 +3,18 @@
 # Confirms a seeded change kept under /verif/seeded/<ID>/ in scratch worktrees (never in /repo):
 #  1. demonstration passes on the unchanged tree, fails with the change (scratch worktree /tmp/w-confirm)
 #  2. the repository's test suite still passes with the change (nextest, same command as the baseline)
-#  3. the property's check reports a violation with the change (scratch harness /tmp/h-m1), and
+#  3. the property's check reports a violation with the change (scratch harness /tmp/h-m1, or the one named by CONFIRM_M), and
 #     which sub-check/signature reported it
 # Results are appended to seeded/<ID>/confirm.log and summarised on stdout.
 set -u
 id="$1"; shift
 d="/verif/seeded/$id"
-w=/tmp/w-confirm
+w=${CONFIRM_W:-/tmp/w-confirm}
+scr=${CONFIRM_M:-m1}
+# several streams may work through the same list: first come, first served
+mkdir -p /tmp/confirm-claimed
+if [ -e "/tmp/confirm-claimed/$id" ]; then echo "skip $id (claimed by another stream)"; exit 0; fi
+touch "/tmp/confirm-claimed/$id"
 export CARGO_INCREMENTAL=0 CARGO_NET_OFFLINE=true
 log="$d/confirm.log"; : > "$log"
 if [ ! -d "$w" ]; then git -C /repo worktree add --detach "$w" HEAD >/dev/null 2>&1; fi
@@ -36,5 +41,5 @@ bin=$(echo "$base" | tr 'A-Z' 'a-z')
 case "$base" in C17) bins="c17a c17b";; C13) bins="c13a c13b";; *) bins="$bin";; esac
 for b in $bins; do
   echo "== check $b with the change" | tee -a "$log"
-  /verif/tools/mutate.sh m1 "$b" /tmp/mut/seed_$id.py -- "$@" 2>&1 | tee -a "$log"
+  /verif/tools/mutate.sh "$scr" "$b" /tmp/mut/seed_$id.py -- "$@" 2>&1 | tee -a "$log"
 done
